@@ -33,6 +33,9 @@ def gen_case(rs, tier):
     cfg["nested_derived"] = False
     cfg["else_level"] = False
     facs = [gencomb._basic(i, rng.choice([2, 2, 3])) for i in range(2)]
+    if rng.random() < 0.3:
+        for lv in facs[1]["levels"]:          # the uncrossed factor may carry weights (it is desugared by the block)
+            lv[1] = rng.choice([1, 2])
     preamble = rng.random() < 0.35
     crossing = [facs[0]["id"]]
     if preamble:
@@ -50,8 +53,9 @@ def gen_case(rs, tier):
     for c in crossing:
         size *= len(fb[c]["levels"])
     kind = krng.choice(KINDS)
-    tf = rng.choice([f for f in facs if f["kind"] == "basic"])
-    con = {"id": "cx", "kind": kind, "target": [tf["id"], rng.choice(tf["levels"])[0]], "spelling": "tuple"}
+    tf = rng.choice(facs)
+    lv = rng.choice(tf["levels"])
+    con = {"id": "cx", "kind": kind, "target": [tf["id"], lv[0] if tf["kind"] == "basic" else lv["name"]], "spelling": "tuple"}
     reps = rng.choice([2, 2, 3])
     if kind == "pin":
         con["index"] = rng.choice([0, 1, -1, -2, size - 1, size])
